@@ -390,6 +390,8 @@ func c02Corpus(c *runner.Ctx, idx uint64) {
 		// a folded negative zero next to a positive one; folded sequences inside map values; a folded pattern that is never matched
 		"[1 / 0.0, 1 / ((-2) ** -1075)]", "[0.0, (-2) ** -1075, 1 / ((-2) ** -1075)]", `{"a": 1..2} == {"a": [1, 2]}`, `{"a": [1, 2]} == {"a": [1, 2]}`, `{"k": {"a": [1, "b"]}} == {"k": {"a": [1, "b"]}}`, `[{"a": 1..2}] == [{"a": [1, 2]}]`,
 		`any(map([NilIt, PIt], {#?.ID}), {# in [1, 2]})`, `map([NilIt, PIt], {#?.ID})[0] not in [7, 8]`, `all(map([NilIt], {#?.Name}), {# in ["a"]})`,
+		// a left operand the checker types int only because one of its operands is dynamic
+		`map([1, 2.5], {# * 2 in [2, 5]})`, `AnyF * 2 in [2, 3, 5]`, `(AnyF + 1) not in [2, 3]`, `-AnyF in [1, 2]`, `count(Anys, {# != nil and # + 1 in [2, 3]}) >= 0`, `AnyS + "a" in ["aa", "b"]`,
 		`false and S matches "[" + "a"`, `false ? "x" matches "(" + "a" : false`, `true or S matches "*" + ""`,
 	}
 	for _, s := range srcs {
